@@ -1326,7 +1326,9 @@ class _AlwaysSortable(object):
         self.value = unwrap_comments(value)[0]
 
     def sortable_value(self):
-        return (str(type(self)), id(self))
+        # Keys that cannot be compared are ordered by the name of their
+        # type; sorting is stable, so ties keep their insertion order.
+        return str(type(self.value))
 
     def __lt__(self, other):
         try:
